@@ -226,8 +226,8 @@ class VttContext:
 
     LOGGER.debug(
       "Append ISD from %ss to %ss to VTT content.",
-      float(begin),
-      float(end) if end is not None else "unbounded"
+      begin,
+      end if end is not None else "unbounded"
     )
 
     # filter the ISD to remove unsupported features
